@@ -54,6 +54,22 @@ CHECKS = {
          "Decides: consumer loops evaluate their operand exactly once, pull exactly one element per iteration in the loop condition (no prefetch), bind with the loop's own ':='/'=' token; the iterator type is replaced iff the iterator predicate holds, uniformly by seq.Iterator[T] under the file's import name.",
          "Completeness of the type replacement in every syntactic position shows as a build error and is not decided; D15 recorded.",
          "DESIGN.md §4 C06"),
+ "C02": ("abstract interpretation of the seq constructors and resumptions (laziness, suspension, take-and-clear), template extraction of the generator wrapper / Bind / Combine / loop arguments, pattern-term extraction of the Delay-elision whitelist",
+         "Decides the structural reasons nothing runs early, late or twice: constructors run nothing; Bind suspends; resumptions run the thunk once inside the advance; Start runs nothing; exhaustion is absorbing; the generator body is exactly Start(Delay(thunk)); the continuation after a yield is the Bind thunk and the yielded expression its unwrapped first argument; loop cond/post/body and both Combine halves are thunks; a Delay is only elided around certified effect-free constructors or Bind with a basic literal.",
+         "Relative timing of effects inside one user expression is Go's evaluation order (trusted); pattern-combinator semantics trusted.",
+         "DESIGN.md §4 C02"),
+ "C07": ("pattern-term extraction of optimizeDelayCall checked against certification of package seq; table extraction of the eta-reduction callback over closure shapes x callee classes; per-file step order",
+         "Decides the side conditions of both optimisations from their source: Delay elision only under certified effect-free constructors / Bind(basic literal), on thunks consisting of the single return; eta reduction keeps the closure on all 18 meaning-changing rows (mutable function variable, method value on user variable, builtin, conversion, generic function with inferred arguments, swapped/duplicated/dropped arguments, differing types, variadic slice passing); imports cleaned before printing; files not using seq are not written.",
+         "go-imports and the pattern-combinator library are trusted; observational equality of the two stages on all programs is not decided.",
+         "DESIGN.md §4 C07"),
+ "C11": ("abstract interpretation of the statement rewriter on symbolic ASTs of every supported kind (dispatch, factory totality, closing of thunk bodies), termination-checker table vs spec reference, block tables, loop-call template, branch pass, eta table, import-name dataflow",
+         "Decides the classes of compiler panics and ill-formed output the property names: every supported statement kind is accepted, the AST factory and the termination checker never panic on their optional parts / ordinary breaks, every statement list wrapped into a thunk ends in a return on its path, no nil node reaches a loop call, select is a break target in nested closures, closures over builtins/conversions/generics are kept, seq is referred to under its import name.",
+         "'The generated package type-checks for every input' is not decided; D15, D16, D21 are recorded build-breaking findings.",
+         "DESIGN.md §4 C11"),
+ "C13": ("resolved enumeration of all Cursor mutator call sites + abstract evaluation of the file-level callbacks over node kinds (edits only under API-membership predicates) + call-graph confinement; eta-reduction table; pass0 in nested closures; branch pass boundary",
+         "Decides that bystander code is only touched under a generator / iterator-type / Yield-call predicate, that the one pass rewriting arbitrary closures (eta reduction) keeps every closure whose reduction changes meaning, that returns/initialisers/branches inside ordinary closures nested in generators are left alone, and that no declaration is added.",
+         "Loss of free-floating comments is behaviour-neutral except for //go: directives inside co files (not decided); go-imports trusted.",
+         "DESIGN.md §4 C13"),
 }
 
 NOT_APPLICABLE = {
